@@ -295,6 +295,14 @@ def run(ctx, tier, res, tag=''):
                 res.undec(text)
         if t[0] == 'set' and t[3] == 'id' and o['changed'] is not None:
             changed[(t[1], t[2])] = set(o['changed'])
+    # H5, structural half: no writable static storage, no foreign callee, no write outside arguments/locals
+    from . import c16
+    found, counts = c16.scan(ctx.mod)
+    res.count('H5 structural sites inspected (globals, call sites, store sites)',
+              counts['globals'] + counts['call sites'] + counts['store sites'])
+    res.ok(counts['globals'] + counts['call sites'] + counts['store sites'] - len(found))
+    for key, text in found:
+        res.violation('H5:' + key + tag, 'hypothesis H5 (results depend only on the arguments) fails: ' + text)
     # H4: pairwise disjoint measured footprints
     for f in ctx.spec['formats']:
         fl = f['fields']
